@@ -152,6 +152,9 @@ def _get_timestamp_format(value):
 
 def _datetime_obj_factory(value, fmt):
     try:
+        # strptime is more tolerant than HL7: it also accepts blanks and one-digit months, days, hours...
+        if re.match(r'^[0-9]+(\.[0-9]+)?\Z', value) is None:
+            raise ValueError
         dt_value = datetime.strptime(value, fmt)
     except ValueError:
         raise ValueError('{0} is not an HL7 valid date value'.format(value))
